@@ -280,6 +280,17 @@ def AddrPre (n : Nat) : AddrSpec → Prop
   | .abs _ _ => True
   | .rel _ lib _ => lib < n
 
+/-- whichever table decides the address, its libraries are valid handles -/
+theorem effMaps_libs {kmaps maps : List Mapping} {n : Nat} (hk : ∀ m ∈ kmaps, m.lib < n)
+    (hm : ∀ m ∈ maps, m.lib < n) (a : AddrSpec) : ∀ m ∈ effMaps kmaps maps a, m.lib < n := by
+  cases a with
+  | abs k x =>
+    simp only [effMaps]
+    split
+    · exact hk
+    · exact hm
+  | rel k l x => exact hm
+
 theorem resolveAddr_spec (libs : GlobalLibs) (maps : List Mapping) (a : AddrSpec) (hl : LibsInv libs)
     (hm : ∀ m ∈ maps, m.lib < libs.all.length) (ha : AddrPre libs.all.length a) :
     LibsInv (resolveAddr libs maps a).1 ∧ (resolveAddr libs maps a).1.all = libs.all ∧
